@@ -174,11 +174,11 @@ pub const CONFLICT: Preset = &[
 /// counters conflicting with plain values in map keys and list elements, incremented, delivered in batches
 pub const COUNTER: Preset = &[
     (LIST_PUT, 18),
-    (LIST_INCREMENT, 16),
-    (PUT, 12),
-    (INCREMENT, 12),
-    (MERGE, 16),
-    (COMMIT, 8),
+    (LIST_INCREMENT, 14),
+    (PUT, 24),
+    (INCREMENT, 16),
+    (MERGE, 18),
+    (COMMIT, 6),
     (LIST_INSERT, 3),
     (LIST_DELETE, 3),
     (DELETE, 3),
@@ -203,6 +203,18 @@ pub const SEQ_CONFLICT: Preset = &[
     (FORK, 1),
     (RECORD_HEADS, 3),
     (APPLY, 2),
+];
+
+/// concurrent puts on the same text elements (values of different widths), then splices that delete them
+pub const TEXT_CONFLICT: Preset = &[
+    (TEXT_PUT, 24),
+    (SPLICE_TEXT, 26),
+    (MERGE, 20),
+    (COMMIT, 8),
+    (MARK, 4),
+    (RECORD_HEADS, 3),
+    (SAVE_LOAD, 1),
+    (FORK, 1),
 ];
 
 /// text heavy
@@ -312,7 +324,9 @@ pub fn step_strategy(preset: Preset) -> impl Strategy<Value = Step> {
 }
 
 pub fn program_strategy(preset: Preset, max_steps: usize, max_rep: u8, encs: u8) -> impl Strategy<Value = Program> {
-    (0..encs.max(1), 1..=max_rep.max(1), prop::bool::weighted(0.8), prop::collection::vec(step_strategy(preset), 1..max_steps.max(2)))
+    // registers with three or more concurrent writers need three or more replicas
+    let min_rep = if preset == COUNTER { 3u8.min(max_rep.max(1)) } else { 1 };
+    (0..encs.max(1), min_rep..=max_rep.max(1), prop::bool::weighted(0.8), prop::collection::vec(step_strategy(preset), 1..max_steps.max(2)))
         .prop_map(move |(enc, nrep, shared, steps)| Program { enc, nrep, shared, steps, nkeys: if preset == CONFLICT { 3 } else if preset == COUNTER { 2 } else { 0 }, flavor: (preset == COUNTER) as u8 })
 }
 
